@@ -17,9 +17,12 @@ pub fn mk_json() -> Value { unimplemented!() }
 #[allow(unused_macros)]
 macro_rules! json { ($($t:tt)*) => { crate::mk_json() } }
 pub struct JsonCodec { pub _p: u8 }
-pub struct FramedWrite<O, C> { pub p: core::marker::PhantomData<(O, C)> }
-pub struct Mutex<T> { pub p: core::marker::PhantomData<T> }
-pub struct WriterGuard<'a, O> { pub p: core::marker::PhantomData<&'a O> }
+// `id`: ghost identity (a struct of PhantomData only would be single-valued: any two values provably equal)
+pub struct FramedWrite<O, C> { pub p: core::marker::PhantomData<(O, C)>, pub id: Ghost<int> }
+// `id`: ghost identity (a struct of PhantomData only would be single-valued: any two values provably equal)
+pub struct Mutex<T> { pub p: core::marker::PhantomData<T>, pub id: Ghost<int> }
+// `id`: ghost identity (a struct of PhantomData only would be single-valued: any two values provably equal)
+pub struct WriterGuard<'a, O> { pub p: core::marker::PhantomData<&'a O>, pub id: Ghost<int> }
 pub trait AsyncWrite {}
 impl<O> Mutex<FramedWrite<O, JsonCodec>> {
     /// tokio's Mutex is not reentrant: locking it again while holding it never returns
@@ -39,8 +42,10 @@ impl<'a, O> WriterGuard<'a, O> {
 }
 pub mod mpsc {
     use super::*;
-    pub struct UnboundedSender<T> { pub p: core::marker::PhantomData<T> }
-    pub struct UnboundedReceiver<T> { pub p: core::marker::PhantomData<T> }
+    // `id`: ghost identity (a struct of PhantomData only would be single-valued: any two values provably equal)
+    pub struct UnboundedSender<T> { pub p: core::marker::PhantomData<T>, pub id: Ghost<int> }
+    // `id`: ghost identity (a struct of PhantomData only would be single-valued: any two values provably equal)
+    pub struct UnboundedReceiver<T> { pub p: core::marker::PhantomData<T>, pub id: Ghost<int> }
     #[verifier::external_body]
     pub fn unbounded_channel<T>() -> (r: (UnboundedSender<T>, UnboundedReceiver<T>)) { unimplemented!() }
     impl<T> UnboundedReceiver<T> {
